@@ -73,6 +73,13 @@ def handle (op : String) (a : Json) : Option R :=
       let spec ← floatList a "spectrum"
       if !okShape s ∨ spec.isEmpty then throw "BadArg:shape"
       pure (arrOut (whiten floatOps spec.toArray s (← getBool a "sirf")))
+  | "c12.whitenaxes" => some do
+      let nd ← getNat a "nd"
+      let b ← match (← a.getObjVal? "batch") with
+        | .null => pure none
+        | v => pure (some (← v.getNat?))
+      pure (Json.mkObj [("axes", jNats (whitenShiftAxes nd b)), ("old", jNats (whitenShiftAxesOld nd b)),
+        ("rank", jNat (maskRank nd b))])
   | "c12.wedge" => some do
       let s ← getNatList a "shape"
       let o ← getNat a "opening"; let t ← getNat a "tilt"
